@@ -297,6 +297,49 @@ func checkC07(c *Ctx) {
 						// only well-formedness required (undocumented out-of-range behaviour): value = data byte
 					}
 				}
+				// each out-parameter alone (the others nil): the accessor still accepts and still writes that value
+				if r.want != nil && len(g.Params) > 2 {
+					for i := range g.Params[1:] {
+						ast := o.St.Clone()
+						gargs := []Val{res}
+						var cell *PtrV
+						for j, prm := range g.Params[1:] {
+							if j == i {
+								cell = ex.allocCell(ast, prm.Type().(*types.Pointer).Elem())
+								// a recognisable stale content: the accessor must overwrite it
+								if w, sg, ok := intTypeInfo(prm.Type().(*types.Pointer).Elem()); ok {
+									ast.heap[cell.Obj] = mkSym(ex.syms.Fresh("stale", w, sg))
+								}
+								gargs = append(gargs, cell)
+							} else {
+								gargs = append(gargs, &PtrV{Nil: true})
+							}
+						}
+						for _, gout := range ex.Call(ast, g, gargs, nil) {
+							key := fmt.Sprintf("%s -> %s only out %d", r.name, r.getter, i)
+							if gout.Panic {
+								c.Bad("C07.3", key+" panic", gout.Pos, gout.Msg)
+								okAll = false
+								continue
+							}
+							bv, _ := gout.Ret[0].(*BoolV)
+							if v, k := gout.St.boolOf(bv); bv == nil || !k || !v {
+								c.Bad("C07.3", key+" accepts", p.Pos(g.Pos()), "the accessor may reject the constructor's own result when only this out-parameter is requested")
+								okAll = false
+								continue
+							}
+							want, _ := r.want(gout.St, iargs)
+							if i >= len(want) {
+								continue
+							}
+							got, _ := gout.St.heap[cell.Obj].(*IntV)
+							if got == nil || !gout.St.sameInt(got, st0conv(gout.St, want[i], got)) {
+								c.Bad("C07.3", key, p.Pos(g.Pos()), fmt.Sprintf("with the other out-parameters nil the accessor leaves %v in this one, expected the clamped argument %s", valString(gout.St.heap[cell.Obj]), want[i]))
+								okAll = false
+							}
+						}
+					}
+				}
 				// every other type-specific accessor rejects
 				for name, other := range getters {
 					if name == r.getter || derivedViews[name] {
